@@ -5,8 +5,9 @@ Mirrors, as they are (quirks included):
   * pkg/virtualtable/virtualtable.go
       `ExpandAndReturnIndexNames` (l.670-759): strip through the first `:`, the `*` branch
         (excluded internal indices, `.kibana` unless elastic), `strings.Split(",")` without trimming,
-        wildcard element → `"^" + ReplaceAll(elem, "*", ".*") + "$"` compiled WITHOUT regexp.QuoteMeta and
-        used with the UNANCHORED `Regexp.Match` against the alias names and table names of the org,
+        wildcard element → `"^" + Join(QuoteMeta(parts of Split(elem, "*")), ".*") + "$"` (since the fix of
+        C13: before, the literal parts were not quoted), compiled and used with the UNANCHORED
+        `Regexp.Match` against the alias names and table names of the org,
         compile error → `[]`, plain element → alias lookup (`pres`, even with an empty target set) else the
         element itself verbatim, empty result → the (stripped) expression itself unless excluded,
         result = sorted key set of a map;
@@ -18,13 +19,14 @@ Mirrors, as they are (quirks included):
   * pkg/segment/writer/unrotatedquery.go `FilterUnrotatedSegmentsInQuery` (l.553).
   * the time-range test is the generated kernel `Gen.TimeRange_CheckRangeOverLap`.
 
-The regular-expression engine (Go regexp = RE2 syntax, flags `syntax.Perl`) is modelled for the fragment
-that can arise from index expressions over the alphabet `inAlphabet` below:
+The regular-expression engine (Go regexp = RE2 syntax, flags `syntax.Perl`) is modelled for a fragment that
+is larger than what the quoted source can contain (it was needed for the unquoted source and is kept: the
+correspondence run exercises it through the quoted source, `regexSrcOld` documents the former behaviour):
   literals, `.`, `*` `+` `?` (with the lazy marker `?` and the "nested repetition" error), `|`, groups
   `( )`, `^` `$` (begin/end of TEXT, as without the `m` flag), character classes `[...]`, `[^...]` with
   ranges, `\` followed by a non-alphanumeric character (a literal).
-Outside the fragment (decidable predicate `inFragment`): `{` `}`, `(?`, `[:`, `\` + letter/digit, non-ASCII,
-control characters.  Matching is by Brzozowski derivatives with begin/end-of-text context; `search` is the
+Not modelled: `{n,m}` repetition, `(?…)`, `[:class:]`, `\` + letter/digit (none of them can arise from the
+quoted source), non-ASCII and control characters (outside `inAlphabet`).  Matching is by Brzozowski derivatives with begin/end-of-text context; `search` is the
 unanchored `Regexp.Match`.  Characters are ASCII (`Char`), names are `List Char`.
 Core Lean only.
 -/
@@ -243,12 +245,32 @@ def replaceStar : Name → List Char
   | [] => []
   | c :: r => if c = '*' then '.' :: '*' :: replaceStar r else c :: replaceStar r
 
+/-- the source the code built BEFORE the fix of C13 (literal parts not quoted) — kept for the record -/
+def regexSrcOld (elem : Name) : List Char := '^' :: (replaceStar elem ++ ['$'])
+
+/-- `regexp.QuoteMeta`'s special characters: `\.+*?()|[]{}^$` -/
+def isMeta (c : Char) : Bool :=
+  c = '.' || c = '+' || c = '?' || c = '(' || c = ')' || c = '[' || c = ']' || c = '|' || c = '^' || c = '$' ||
+  c = '\\' || c = '{' || c = '}' || c = '*'
+
+/-- `strings.Join(QuoteMeta(p) for p in strings.Split(elem, "*"), ".*")`, character by character:
+`*` becomes `.*`, a special character gets a backslash, every other character stays -/
+def quoteStar : Name → List Char
+  | [] => []
+  | c :: r =>
+    if c = '*' then '.' :: '*' :: quoteStar r
+    else if isMeta c then '\\' :: c :: quoteStar r
+    else c :: quoteStar r
+
 /-- the regular expression source the code builds for a wildcard element -/
-def regexSrc (elem : Name) : List Char := '^' :: (replaceStar elem ++ ['$'])
+def regexSrc (elem : Name) : List Char := '^' :: (quoteStar elem ++ ['$'])
 
 /-- what the code's wildcard test really computes: `none` = the expression does not compile,
 `some b` = `regexp.Match` -/
 def implMatch (elem name : Name) : Option Bool := (compile (regexSrc elem)).map (fun re => search re name)
+
+/-- the same test before the fix -/
+def implMatchOld (elem name : Name) : Option Bool := (compile (regexSrcOld elem)).map (fun re => search re name)
 
 /-! ## The modelled alphabet / fragment -/
 
@@ -257,30 +279,9 @@ def isAlnum (c : Char) : Bool := ('a' ≤ c && c ≤ 'z') || ('A' ≤ c && c ≤
 /-- characters of index names and expressions that are modelled -/
 def inAlphabet (c : Char) : Bool :=
   isAlnum c || c = '-' || c = '_' || c = '.' || c = '*' || c = '+' || c = '?' || c = '(' || c = ')' ||
-  c = '[' || c = ']' || c = '|' || c = '^' || c = '$' || c = '\\' || c = ',' || c = ':' || c = ' '
-
-/-- no `(?` and no `[:` (raw), every `\` followed by a non-alphanumeric character -/
-def toksOk : List Tok → Bool
-  | [] => true
-  | .esc c :: r => !isAlnum c && toksOk r
-  | .raw c :: r =>
-    (match r with
-      | .raw d :: _ => !((c = '(' && d = '?') || (c = '[' && d = ':'))
-      | _ => true) && toksOk r
-
-/-- a wildcard element is in the modelled fragment -/
-def elemInFragment (elem : Name) : Bool :=
-  elem.all inAlphabet &&
-  match lex (regexSrc elem) with
-  | none => true
-  | some toks => toksOk toks
+  c = '[' || c = ']' || c = '|' || c = '^' || c = '$' || c = '\\' || c = '{' || c = '}' || c = ',' || c = ':' || c = ' '
 
 def nameOk (n : Name) : Bool := n.all inAlphabet
-
-/-- characters with a meaning in the regular-expression syntax (the guard of `implMatch_eq_glob`) -/
-def isMeta (c : Char) : Bool :=
-  c = '.' || c = '+' || c = '?' || c = '(' || c = ')' || c = '[' || c = ']' || c = '|' || c = '^' || c = '$' ||
-  c = '\\' || c = '{' || c = '}' || c = '*'
 
 /-- every character of the element other than `*` is an ordinary character -/
 def plainElem (elem : Name) : Bool := elem.all (fun c => c = '*' || !isMeta c)
@@ -443,15 +444,25 @@ def Meta.deleteKey (m : Meta) (key : Nat) : Meta :=
     | none => { m with all := all' }
     | some l => { all := all', byTable := putT s.table (l.filter (·.key ≠ key)) m.byTable }
 
-/-- `deleteTable(table, orgid)`: the segments OF THAT ORG in the table's list are removed, then the
-table's WHOLE entry is dropped from `tableSortedMetadata` -/
-def Meta.deleteTable (m : Meta) (table : Name) (org : Org) : Meta :=
+/-- `deleteTable(table, orgid)` BEFORE the fix of C13: the segments OF THAT ORG in the table's list are
+removed, then the table's WHOLE entry is dropped from `tableSortedMetadata` — kept for the record -/
+def Meta.deleteTableOld (m : Meta) (table : Name) (org : Org) : Meta :=
   match lookupT table m.byTable with
   | none => m
   | some segs =>
     let keys := (segs.filter (·.org = org)).map (·.key)
     let m' := keys.foldl Meta.deleteKey m
     { m' with byTable := eraseT table m'.byTable }
+
+/-- `deleteTable(table, orgid)`: the segments OF THAT ORG in the table's list are removed; the table's
+entry is dropped from `tableSortedMetadata` only when no segment (of any org) is left in it -/
+def Meta.deleteTable (m : Meta) (table : Name) (org : Org) : Meta :=
+  match lookupT table m.byTable with
+  | none => m
+  | some segs =>
+    let keys := (segs.filter (·.org = org)).map (·.key)
+    let m' := keys.foldl Meta.deleteKey m
+    if ((lookupT table m'.byTable).getD []).isEmpty then { m' with byTable := eraseT table m'.byTable } else m'
 
 /-- `FilterSegmentsByTime`: for every requested name, the table's list filtered on overlap and org -/
 def selectRotated (qlo qhi : Int) (names : List Name) (org : Org) (m : Meta) : List Seg :=
